@@ -44,7 +44,7 @@ def make_input(rng):
     if r < 0.42:
         # hand-packed tiny pictures / fragments with degenerate slice and transform parameters
         return common.degenerate_stream(rng)
-    desc, data, pics = common.encoder_stream(rng)
+    desc, data, pics = common.encoder_stream(rng) if rng.random() < 0.9 else common.deep_lossless_stream(rng)
     if r < 0.6:
         # 1-3 concatenated conformant sequences (differing configurations), some with extra padding units
         parts = [data]
